@@ -1,10 +1,19 @@
 #!/bin/bash
 # False-alarm probe over every stored behaviour-preserving refactor (benign/*/patch.diff).
-# Exit 0 when no check raises an alarm on any of them.
+# Exit 0 when no check raises an alarm on any of them. Runs three shards side by
+# side, each in its own scratch worktree of /repo's HEAD.
 cd /verif
-fail=0
-for d in benign/B?_*; do
-  out=$(./tools/benigntest.sh $d); echo "$out"
-  echo "$out" | grep -q "all checks pass" || fail=1
+ls -d benign/B?_* | sort > /tmp/benignall.list
+n=3
+for s in $(seq 0 $((n-1))); do
+  ( awk -v n=$n -v s=$s 'NR % n == s' /tmp/benignall.list | while read d; do BENIGNWT=/tmp/benignwt$s ./tools/benigntest.sh $d; done > /tmp/benignall.$s.out 2>&1 ) &
 done
+wait
+cat /tmp/benignall.?.out | sort
+fail=0
+total=$(wc -l < /tmp/benignall.list)
+pass=$(cat /tmp/benignall.?.out | grep -c "all checks pass")
+echo "benign changes: $total, all checks pass on: $pass"
+[ "$pass" = "$total" ] || fail=1
+for s in $(seq 0 $((n-1))); do git -C /repo worktree remove --force /tmp/benignwt$s 2>/dev/null; done
 exit $fail
